@@ -25,6 +25,13 @@
 (* ENDFILE rule rebinds $ for the rest of that rule only (the tree of the    *)
 (* round is shared: `$.p = v` is seen by the ENDFILE rules that follow).     *)
 (*                                                                           *)
+(* `glob` is the program's OWN variable (an ordinary global, `g`): no level of *)
+(* the schedule binds it, so a value a body assigns stays until the next      *)
+(* assignment -- across rules, elements, rounds, values and files -- and a    *)
+(* pattern that reads it is evaluated when its rule is reached, for every     *)
+(* element anew (GlobalPersists; MC_Driver supplies the truth value from      *)
+(* `glob` at that moment).                                                    *)
+(*                                                                           *)
 (* Not modelled (left open by the statement): `next` outside a pattern rule  *)
 (* body, $ in ENDFILE once the root cell of the round was reassigned as a    *)
 (* whole, $file in a later selector round of the value in which it was       *)
